@@ -102,7 +102,7 @@ func (p *c12Pair) apply(ev c12Ev) (f *explore.Fail, prune bool) {
 }
 
 func c12Events(tmaVals, timaVals []uint8) []c12Ev {
-	evs := []c12Ev{{K: "tick"}, {K: "div"}}
+	evs := []c12Ev{{K: "tick"}, {K: "div", V: 0xa5}} // any value written to DIV clears it
 	for _, v := range timaVals {
 		evs = append(evs, c12Ev{K: "tima", V: v})
 	}
